@@ -98,8 +98,12 @@ def check_real(case):
         kdoc, errs = kp.load(RS.path(case['real']))
     except Exception:  # noqa
         return Result(classes=['real-score-not-importable'])
-    with open(RS.path(case['real']), encoding='utf-8', newline='') as f:
-        raw = f.read()
+    with open(RS.path(case['real']), 'rb') as f:
+        rawb = f.read()
+    try:
+        raw = rawb.decode('utf-8')
+    except UnicodeDecodeError:
+        return Result(classes=['real-score-not-utf8'])  # how such a file is decoded is the platform's choice, not the property's
     toks = kdoc.get_all_tokens()
     encs, tcats = [t.encoding for t in toks], [t.category.name for t in toks]
     ncells = sum(len(l.split('\t')) for l in raw.replace('\r', '').split('\n') if l and not l.startswith('!!'))
@@ -125,7 +129,8 @@ def check_real(case):
         fr = kdoc.frequencies(arg)
         if sum(v['occurrences'] for v in fr.values()) != len(e) or {k: v['occurrences'] for k, v in fr.items()} != dict(collections.Counter(e)) or list(fr) != eu:
             raise Bad('frequencies', f'{case["real"]} filter {f}: frequencies do not agree with the listing')
-    glob = [l for l in raw.replace('\r', '').split('\n') if l.startswith('!!')]
+    # (blanks at the end of a comment line are not significant: kernpy trims them, the generated comments never have any)
+    glob = [l.rstrip() for l in raw.replace('\r', '').split('\n') if l.startswith('!!')]
     if kdoc.get_metacomments() != glob:
         raise Bad('metacomments', f'{case["real"]}: get_metacomments() has {len(kdoc.get_metacomments())} entries, the file {len(glob)} global comment lines')
     for key in sorted({c[3:].split(':')[0] for c in glob if c.startswith('!!!')})[:6]:
